@@ -7,6 +7,7 @@ import (
 	"context"
 	"encoding/json"
 	"fmt"
+	"github.com/orda-io/orda/client/pkg/verifhook"
 	"sort"
 	"sync"
 	"time"
@@ -61,10 +62,21 @@ type sworld struct {
 	heldRep map[int][]int
 	pubSeen int
 	out     func(cmd, obs J)
-	lite    bool // store dumps without snapshots and user documents (their timing is schedule-dependent)
+	lite    bool            // store dumps without snapshots and user documents (their timing is schedule-dependent)
+	bgHeld  []chan struct{} // post-push goroutines parked before their snapshot update (fault "holdbg"), oldest first
 }
 
 var theKit *srvkit.Kit
+var bgMu sync.Mutex
+
+func pushedSomething(packs []*model.PushPullPack) bool {
+	for _, p := range packs {
+		if len(p.Operations) > 0 {
+			return true
+		}
+	}
+	return false
+}
 
 func getKit() *srvkit.Kit {
 	if theKit == nil {
@@ -146,7 +158,9 @@ func (w *sworld) stepNewDt(c int, key, typ, mode string) (J, J, bool) {
 	idx := len(w.reps)
 	hl := &hlog{}
 	h := orda.NewHandlers(
-		func(dt orda.Datatype, old, new model.StateOfDatatype) { hl.add(J{"h": "state", "old": stateName(old), "new": stateName(new)}) },
+		func(dt orda.Datatype, old, new model.StateOfDatatype) {
+			hl.add(J{"h": "state", "old": stateName(old), "new": stateName(new)})
+		},
 		func(dt orda.Datatype, ops []interface{}) { hl.add(J{"h": "remote"}) },
 		func(dt orda.Datatype, errs ...errors.OrdaError) {
 			codes := make([]interface{}, 0)
@@ -391,7 +405,42 @@ func (w *sworld) stepSync(c int, rs []int, fault string, hold int, mut *mutation
 		if fault == "nosnap" || fault == "holdsnap" {
 			w.kit.Mongo.SetGate(func(c memmongo.CmdRecord) bool { return c.Coll == "-_-Snapshots" && c.Name == "find" })
 		}
+		if fault == "holdbg" {
+			// the post-push goroutine of this request is parked BEFORE it tries the snapshot lock: later
+			// pushes update the snapshot first, this updater runs late with its old end of log
+			var once sync.Once
+			verifhook.SetHook(func(p string) {
+				if p != "server.postpush.beforeSnapshot" {
+					return
+				}
+				var ch chan struct{}
+				once.Do(func() {
+					ch = make(chan struct{})
+					bgMu.Lock()
+					w.bgHeld = append(w.bgHeld, ch)
+					bgMu.Unlock()
+				})
+				if ch != nil {
+					<-ch
+				}
+			})
+		}
 		resp, err := send()
+		if fault == "holdbg" {
+			for t := 0; t < 300; t++ {
+				bgMu.Lock()
+				n := len(w.bgHeld)
+				bgMu.Unlock()
+				if n > 0 || err != nil {
+					break
+				}
+				time.Sleep(time.Millisecond)
+				if t > 20 && (resp == nil || !pushedSomething(packs)) {
+					break
+				}
+			}
+			verifhook.SetHook(nil)
+		}
 		if fault == "nosnap" {
 			for t := 0; t < 300 && len(w.kit.Mongo.Held()) == 0; t++ {
 				time.Sleep(time.Millisecond)
@@ -493,6 +542,16 @@ func (w *sworld) stepRelease() (J, J, bool) {
 		w.kit.Mongo.ReleaseAll()
 		time.Sleep(2 * time.Millisecond)
 		w.waitBackground()
+		bgMu.Lock()
+		parked := w.bgHeld
+		w.bgHeld = nil
+		bgMu.Unlock()
+		obs["parked"] = len(parked)
+		for _, ch := range parked { // one at a time, oldest first
+			close(ch)
+			time.Sleep(2 * time.Millisecond)
+			w.waitBackground()
+		}
 		w.notifs()
 	})
 	return J{"k": "release"}, obs, hung
